@@ -193,6 +193,7 @@ func RunE1(env *Env, p *Prop) *Result {
 		}
 	}
 	var wg sync.WaitGroup
+	totalRestarts := 0
 	for i := 0; i < env.Workers; i++ {
 		wg.Add(1)
 		go func(i int) {
@@ -306,11 +307,17 @@ func RunE1(env *Env, p *Prop) *Result {
 				mu.Unlock()
 				after = fmt.Sprintf("%d:%d:%s", ph, size, trailString(trail))
 				restarts++
-				if restarts > 40 {
-					mu.Lock()
+				mu.Lock()
+				totalRestarts++
+				tooMany := restarts > 40 || totalRestarts > 12
+				if tooMany {
+					// every hang/crash so far is on record as a violation; do not spend the budget
+					// waiting for the watchdog on the rest of a space that is already known to be broken
 					res.Exhaustive = false
-					res.CapHit = "worker restarted more than 40 times after hangs/crashes"
-					mu.Unlock()
+					res.CapHit = "exploration stopped after more than 12 hangs/crashes (each one reported)"
+				}
+				mu.Unlock()
+				if tooMany {
 					return
 				}
 			}
